@@ -1,6 +1,7 @@
 package main
 
 import (
+	"os"
 	"bytes"
 	"fmt"
 	"sort"
@@ -202,6 +203,9 @@ func (c *PClient) ReadReply() Reply {
 				raw := c.rbuf
 				c.rbuf = nil
 				return Reply{NoReply: true, Malformed: "server waits for input after an incomplete reply", Raw: raw}
+			}
+			if os.Getenv("VERIF_DEBUG") != "" {
+				fmt.Fprintf(os.Stderr, "NOREPLY %s step=%d bytesIn=%d readCalls=%d live=%v\n", c.name, w.Steps(), c.conn.BytesIn, c.conn.ReadCalls, w.LiveTasks())
 			}
 			return Reply{NoReply: true}
 		}
